@@ -6,6 +6,7 @@ package conc
 
 import (
 	"context"
+	"math/rand/v2"
 	"runtime"
 	"sync"
 	"sync/atomic"
@@ -73,8 +74,11 @@ func NewWorld(drivers []evt.Driver, seed uint64, record bool, opts ...ebu.Option
 	return w
 }
 
-// Tick returns a fresh stamp.
+// Tick returns a fresh stamp (0 in recorder-free mode: no synchronisation of the harness's own).
 func (w *World) Tick() uint64 {
+	if !w.Record {
+		return 0
+	}
 	w.mu.Lock()
 	w.clock++
 	c := w.clock
@@ -100,6 +104,17 @@ func (w *World) NextEID() uint64 { return w.eid.Add(1) }
 
 // Noise is called at every yield point: a PRNG-chosen Gosched / spin / short sleep.
 func (w *World) Noise() {
+	if !w.Record {
+		// recorder-free (race-hunting) mode: the runtime's per-thread PRNG, no atomics
+		switch x := rand.Uint32() % 100; {
+		case int(x) >= w.NoisePct:
+		case x%3 == 0:
+			time.Sleep(time.Duration(x%30+1) * time.Microsecond)
+		default:
+			runtime.Gosched()
+		}
+		return
+	}
 	n := w.noiseCtr.Add(1)
 	x := (n*0x9E3779B97F4A7C15 ^ w.noiseSeed) * 0xBF58476D1CE4E5B9
 	x ^= x >> 31
@@ -145,6 +160,13 @@ func (w *World) Subscribe(g int, r *Reg) error {
 		}
 	}
 	cb := func(ctx context.Context, id uint64, ok bool) {
+		if !w.Record {
+			w.yield("body", r.ID, id)
+			if r.Body != nil {
+				r.Body(w, r, ctx, id)
+			}
+			return
+		}
 		if n := r.inBody.Add(1); n > 1 && r.Seq {
 			w.Rec(Ev{G: -1, K: "seq.overlap", Reg: r.ID, EID: id})
 		}
@@ -246,6 +268,16 @@ func (w *World) Wait(g int) {
 	call := w.Tick()
 	w.Bus.Wait()
 	w.Rec(Ev{G: g, K: "wait", Call: call})
+}
+
+// Shutdown records bus.Shutdown with an unbounded context as a wait (same obligations when it returns nil).
+func (w *World) Shutdown(g int) error {
+	call := w.Tick()
+	err := w.Bus.Shutdown(context.Background())
+	if err == nil {
+		w.Rec(Ev{G: g, K: "wait", Call: call, Res: 1})
+	}
+	return err
 }
 
 // SameShardTypes returns up to n driver indices that share one routing shard (falls back on
